@@ -155,7 +155,7 @@ func runC13(w *mon.Worker) {
 		verifhook.PromiseSetMid, verifhook.OnceLock, verifhook.MemoMid, verifhook.LifoPushCAS, verifhook.LifoPopCAS, verifhook.CcallSpawned, verifhook.ConcWorkerLock}
 	mon.SetProb(0.1, allSites...)
 	clients := raceClients()
-	rounds := w.Scale(8, 400)
+	rounds := w.Scale(8, 4000)
 	for round := 0; round < rounds; round++ {
 		for i, rc := range clients {
 			if (i+round)%4 != w.Idx%4 {
@@ -199,7 +199,7 @@ func runC13(w *mon.Worker) {
 		{"C18", concCase},
 		{"C20", closerConcurrentCase},
 	}
-	n := w.Scale(4, 120)
+	n := w.Scale(4, 1200)
 	for i := 0; i < n; i++ {
 		for j, b := range bws {
 			if (j+i)%4 != w.Idx%4 {
